@@ -25,6 +25,7 @@ NodeModes(n, e, cfg) ==
     /\ (e.m => n.mdelim = e.d)
     /\ CASE n.k = "math" ->
               /\ n.disp = (IF Has(cfg.inline_open, n.delims[1]) THEN "inline" ELSE "display")
+              /\ Has(cfg.pairs, n.delims)          \* the recorded delimiters are a documented (opening, closing) pair
               /\ SeqModes(n.body, 1, Exp(TRUE, n.delims[1]), cfg)
          [] n.k = "env" ->
               /\ ArgsModes(n.args, 1, n, e, cfg)
